@@ -18,7 +18,7 @@ RULE = ('the real Equalizer on virtual multiprocessing / virtual time: every vec
 ASSUMPTIONS = ['roughly-the-timeout is decided in virtual time (one 1-s poll of slack); real-time slack only in the thorough conformance runs',
                'SIGKILL landing while a worker holds an OS-level queue lock is modelled as poisoning that queue',
                'a generator that is dropped without close() is closed by the garbage collector (CPython)']
-B = ['equal', 'exit', 'hang', 'late', 'hang_traps_sigterm']
+B = ['equal', 'exit', 'hang', 'late', 'hang_traps_sigterm', 'late_unkillable', 'player_raises_badstr']
 
 
 def bounds(tier):
@@ -31,13 +31,15 @@ def gen_cases(tier, seed):
     for n in range(1, mx + 1):
         for vec in itertools.product(B, repeat=n):
             for recycle in (1, 2, 3):
-                for timeout in (0, 1, 3):
-                    if n == mx and tier == 'thorough' and (recycle, timeout) not in ((1, 1), (2, 1), (2, 3), (3, 0)):
+                for timeout in (0, 1, 3, 0.5):
+                    if n == mx and tier == 'thorough' and (recycle, timeout) not in ((1, 1), (2, 1), (2, 3), (3, 0), (2, 0.5)):
+                        continue
+                    if n == mx and tier == 'quick' and (recycle, timeout) not in ((1, 1), (2, 1), (2, 0.5), (3, 3)):
                         continue
                     yield {'vec': list(vec), 'recycle': recycle, 'timeout': timeout, 'bound': 2 if n <= 2 or tier == 'thorough' else 1, 'consumer': ['drain']}
             if n >= 2:
                 for k in range(1, n + 1):
-                    for kind in ('close', 'raise'):
+                    for kind in ('close', 'raise', 'drop'):
                         yield {'vec': list(vec), 'recycle': 2, 'timeout': 1, 'bound': 2 if n <= 2 else 1, 'consumer': [kind, k]}
     if tier == 'thorough':
         for vec in [('hang',), ('exit',), ('equal', 'hang'), ('hang', 'hang'), ('exit', 'exit', 'equal'), ('equal', 'equal', 'hang'), ('hang', 'equal', 'exit'),
